@@ -58,7 +58,7 @@ package xpath
 //@   ensures-assumed[stream-def] result != nil ==> pos(result) == spos(ref(self), epoch(self), old(k(self))) && old(k(self)) < slen(ref(self), epoch(self))
 //@   ensures-assumed[stream-def] result == nil ==> slen(ref(self), epoch(self)) == old(k(self))
 //@   ensures-assumed[stream-def] 0 <= old(k(self)) && old(k(self)) <= slen(ref(self), epoch(self))
-//@   ensures-assumed[cursor-restored] pos(cur(t)) == old(pos(cur(t)))
+//@   ensures[cursor-restored@C13] pos(cur(t)) == old(pos(cur(t)))
 
 //@ iface query.Evaluate(t) result
 //@   requires t != nil
@@ -70,7 +70,7 @@ package xpath
 //@   ghost ctxp(self) = old(pos(cur(t)))
 //@   ensures-assumed[query-value] is(result, query) ==> result == self
 //@   ensures-assumed[eval-def] result == evalv(ref(self), epoch(self))
-//@   ensures-assumed[cursor-restored] pos(cur(t)) == old(pos(cur(t)))
+//@   ensures[cursor-restored@C13] pos(cur(t)) == old(pos(cur(t)))
 //@   ensures-assumed[restart-deterministic] old(pos(cur(t))) == old(ctxp(self)) ==> slen(ref(self), epoch(self)) == slen(ref(self), old(epoch(self))) && forall(i, Int, spos(ref(self), epoch(self), i) == spos(ref(self), old(epoch(self)), i))
 //@   ensures[valtype@C15] valtype(result) || result == nil && is(self, nopQuery)
 //@   ensures[reset@C02!] resetOK(self)
@@ -124,22 +124,26 @@ package xpath
 
 //@ field functionQuery.Func(q, t) result
 //@   preserves heap(F:NodeIterator.*)
+//@   ensures[cursor-restored@C13] pos(cur(t)) == old(pos(cur(t)))
 //@   requires t != nil
 //@   ensures[valtype@C15] valtype(result)
 
 //@ field transformFunctionQuery.Func(q, t) result
 //@   preserves heap(F:NodeIterator.*)
+//@   ensures[cursor-restored@C13] pos(cur(t)) == old(pos(cur(t)))
 //@   requires q != nil && t != nil
 //@   ensures[nonnil@C15] result != nil
 
 //@ field logicalQuery.Do(t, m, n) result
 //@   preserves heap(F:NodeIterator.*)
+//@   ensures[cursor-restored@C13] pos(cur(t)) == old(pos(cur(t)))
 //@   requires t != nil && valtype(m) && valtype(n)
 //@   requires[fresh-streams] is(m, query) && is(n, query) ==> k(m) == 0 && k(n) == 0 && ctxp(n) == pos(cur(t))
 //@   ensures[valtype@C15] valtype(result)
 
 //@ field numericQuery.Do(t, m, n) result
 //@   preserves heap(F:NodeIterator.*)
+//@   ensures[cursor-restored@C13] pos(cur(t)) == old(pos(cur(t)))
 //@   requires t != nil && valtype(m) && valtype(n)
 //@   ensures[valtype@C15] valtype(result)
 
@@ -155,12 +159,14 @@ package xpath
 //@   ensures[nonnil@C15] result != nil
 //@   requires[nonnil-args@C15] arg != nil
 //@ func countFunc$1
-//@   props C15 C04 C05
-//@   theory stream for C04 C05 C14
+//@   props C15 C04 C05 C13
+//@   theory stream for C04 C05 C14 C13
 //@   ensures[pure-arg@C04,C05] stateless(arg) || k(arg) == old(k(arg)) && epoch(arg) == old(epoch(arg))
 //@   conforms functionQuery.Func
 //@   captures arg != nil
 //@   loop 0 invariant[pure@C04,C05] (stateless(arg) || k(arg) == old(k(arg)) && epoch(arg) == old(epoch(arg)))
+//@   uses one-document
+//@   loop * invariant[cursor@C13] cur(t) == old(cur(t)) && pos(cur(t)) == old(pos(cur(t)))
 
 //@ func sumFunc
 //@   props C15
@@ -168,13 +174,15 @@ package xpath
 //@   ensures[nonnil@C15] result != nil
 //@   requires[nonnil-args@C15] arg != nil
 //@ func sumFunc$1
-//@   props C15 C04 C05
-//@   theory stream for C04 C05 C14
+//@   props C15 C04 C05 C13
+//@   theory stream for C04 C05 C14 C13
 //@   ensures[pure-arg@C04,C05] stateless(arg) || k(arg) == old(k(arg)) && epoch(arg) == old(epoch(arg))
 //@   panics "sum() function argument type must be a node-set or number"
 //@   conforms functionQuery.Func
 //@   captures arg != nil
 //@   loop 0 invariant[pure@C04,C05] (stateless(arg) || k(arg) == old(k(arg)) && epoch(arg) == old(epoch(arg)))
+//@   uses one-document
+//@   loop * invariant[cursor@C13] cur(t) == old(cur(t)) && pos(cur(t)) == old(pos(cur(t)))
 
 //@ func ceilingFunc
 //@   props C15
@@ -182,11 +190,13 @@ package xpath
 //@   ensures[nonnil@C15] result != nil
 //@   requires[nonnil-args@C15] arg != nil
 //@ func ceilingFunc$1
-//@   props C15 C04 C05
-//@   theory stream for C04 C05 C14
+//@   props C15 C04 C05 C13
+//@   theory stream for C04 C05 C14 C13
 //@   ensures[pure-arg@C04,C05] stateless(arg) || k(arg) == old(k(arg)) && epoch(arg) == old(epoch(arg))
 //@   conforms functionQuery.Func
 //@   captures arg != nil
+//@   uses one-document
+//@   loop * invariant[cursor@C13] cur(t) == old(cur(t)) && pos(cur(t)) == old(pos(cur(t)))
 
 //@ func floorFunc
 //@   props C15
@@ -194,11 +204,13 @@ package xpath
 //@   ensures[nonnil@C15] result != nil
 //@   requires[nonnil-args@C15] arg != nil
 //@ func floorFunc$1
-//@   props C15 C04 C05
-//@   theory stream for C04 C05 C14
+//@   props C15 C04 C05 C13
+//@   theory stream for C04 C05 C14 C13
 //@   ensures[pure-arg@C04,C05] stateless(arg) || k(arg) == old(k(arg)) && epoch(arg) == old(epoch(arg))
 //@   conforms functionQuery.Func
 //@   captures arg != nil
+//@   uses one-document
+//@   loop * invariant[cursor@C13] cur(t) == old(cur(t)) && pos(cur(t)) == old(pos(cur(t)))
 
 //@ func roundFunc
 //@   props C15
@@ -206,49 +218,57 @@ package xpath
 //@   ensures[nonnil@C15] result != nil
 //@   requires[nonnil-args@C15] arg != nil
 //@ func roundFunc$1
-//@   props C15 C04 C05
-//@   theory stream for C04 C05 C14
+//@   props C15 C04 C05 C13
+//@   theory stream for C04 C05 C14 C13
 //@   ensures[pure-arg@C04,C05] stateless(arg) || k(arg) == old(k(arg)) && epoch(arg) == old(epoch(arg))
 //@   conforms functionQuery.Func
 //@   captures arg != nil
+//@   uses one-document
+//@   loop * invariant[cursor@C13] cur(t) == old(cur(t)) && pos(cur(t)) == old(pos(cur(t)))
 
 //@ func nameFunc
 //@   props C15
 //@   modifies nothing
 //@   ensures[nonnil@C15] result != nil
 //@ func nameFunc$1
-//@   props C15 C04 C05 C14
-//@   theory stream for C04 C05 C14
+//@   props C15 C04 C05 C14 C13
+//@   theory stream for C04 C05 C14 C13
 //@   ensures[pure-arg@C04,C05] arg != nil ==> stateless(arg) || k(arg) == old(k(arg)) && epoch(arg) == old(epoch(arg))
 //@   conforms functionQuery.Func
 //@   ensures[context-node@C14] arg == nil ==> result == box(qname(old(pos(cur(t)))))
 //@   ensures[first-node@C14] arg != nil && v != nil ==> result == box(qname(pos(v)))
 //@   ensures[empty-set@C14] arg != nil && v == nil ==> result == box("")
+//@   uses one-document
+//@   loop * invariant[cursor@C13] cur(t) == old(cur(t)) && pos(cur(t)) == old(pos(cur(t)))
 
 //@ func localNameFunc
 //@   props C15
 //@   modifies nothing
 //@   ensures[nonnil@C15] result != nil
 //@ func localNameFunc$1
-//@   props C15 C04 C05 C14
-//@   theory stream for C04 C05 C14
+//@   props C15 C04 C05 C14 C13
+//@   theory stream for C04 C05 C14 C13
 //@   ensures[pure-arg@C04,C05] arg != nil ==> stateless(arg) || k(arg) == old(k(arg)) && epoch(arg) == old(epoch(arg))
 //@   conforms functionQuery.Func
 //@   ensures[context-node@C14] arg == nil ==> result == box(nav_local(old(pos(cur(t)))))
 //@   ensures[first-node@C14] arg != nil && v != nil ==> result == box(nav_local(pos(v)))
 //@   ensures[empty-set@C14] arg != nil && v == nil ==> result == box("")
+//@   uses one-document
+//@   loop * invariant[cursor@C13] cur(t) == old(cur(t)) && pos(cur(t)) == old(pos(cur(t)))
 
 //@ func namespaceFunc
 //@   props C15
 //@   modifies nothing
 //@   ensures[nonnil@C15] result != nil
 //@ func namespaceFunc$1
-//@   props C15 C04 C05 C14
-//@   theory stream for C04 C05 C14
+//@   props C15 C04 C05 C14 C13
+//@   theory stream for C04 C05 C14 C13
 //@   ensures[pure-arg@C04,C05] arg != nil ==> stateless(arg) || k(arg) == old(k(arg)) && epoch(arg) == old(epoch(arg))
 //@   conforms functionQuery.Func
 //@   ensures[namespace-uri@C14] v != nil ==> result == box(ite(hasMethod(v, "NamespaceURL"), nav_nsurl(pos(v)), nav_prefix(pos(v))))
 //@   ensures[empty-set@C14] arg != nil && v == nil ==> result == box("")
+//@   uses one-document
+//@   loop * invariant[cursor@C13] cur(t) == old(cur(t)) && pos(cur(t)) == old(pos(cur(t)))
 
 //@ func booleanFunc
 //@   props C15
@@ -256,11 +276,13 @@ package xpath
 //@   ensures[nonnil@C15] result != nil
 //@   requires[nonnil-args@C15] arg1 != nil
 //@ func booleanFunc$1
-//@   props C15 C04 C05
-//@   theory stream for C04 C05 C14
+//@   props C15 C04 C05 C13
+//@   theory stream for C04 C05 C14 C13
 //@   ensures[pure-arg1@C04,C05] stateless(arg1) || k(arg1) == old(k(arg1)) && epoch(arg1) == old(epoch(arg1))
 //@   conforms functionQuery.Func
 //@   captures arg1 != nil
+//@   uses one-document
+//@   loop * invariant[cursor@C13] cur(t) == old(cur(t)) && pos(cur(t)) == old(pos(cur(t)))
 
 //@ func numberFunc
 //@   props C15
@@ -268,11 +290,13 @@ package xpath
 //@   ensures[nonnil@C15] result != nil
 //@   requires[nonnil-args@C15] arg1 != nil
 //@ func numberFunc$1
-//@   props C15 C04 C05
-//@   theory stream for C04 C05 C14
+//@   props C15 C04 C05 C13
+//@   theory stream for C04 C05 C14 C13
 //@   ensures[pure-arg1@C04,C05] stateless(arg1) || k(arg1) == old(k(arg1)) && epoch(arg1) == old(epoch(arg1))
 //@   conforms functionQuery.Func
 //@   captures arg1 != nil
+//@   uses one-document
+//@   loop * invariant[cursor@C13] cur(t) == old(cur(t)) && pos(cur(t)) == old(pos(cur(t)))
 
 //@ func stringFunc
 //@   props C15
@@ -280,11 +304,13 @@ package xpath
 //@   ensures[nonnil@C15] result != nil
 //@   requires[nonnil-args@C15] arg1 != nil
 //@ func stringFunc$1
-//@   props C15 C04 C05
-//@   theory stream for C04 C05 C14
+//@   props C15 C04 C05 C13
+//@   theory stream for C04 C05 C14 C13
 //@   ensures[pure-arg1@C04,C05] stateless(arg1) || k(arg1) == old(k(arg1)) && epoch(arg1) == old(epoch(arg1))
 //@   conforms functionQuery.Func
 //@   captures arg1 != nil
+//@   uses one-document
+//@   loop * invariant[cursor@C13] cur(t) == old(cur(t)) && pos(cur(t)) == old(pos(cur(t)))
 
 //@ func startwithFunc
 //@   props C15
@@ -292,13 +318,15 @@ package xpath
 //@   ensures[nonnil@C15] result != nil
 //@   requires[nonnil-args@C15] arg1 != nil && arg2 != nil
 //@ func startwithFunc$1
-//@   props C15 C04 C05
-//@   theory stream for C04 C05 C14
+//@   props C15 C04 C05 C13
+//@   theory stream for C04 C05 C14 C13
 //@   ensures[pure-arg1@C04,C05] stateless(arg1) || k(arg1) == old(k(arg1)) && epoch(arg1) == old(epoch(arg1))
 //@   ensures[pure-arg2@C04,C05] stateless(arg2) || k(arg2) == old(k(arg2)) && epoch(arg2) == old(epoch(arg2))
 //@   panics "starts-with() function argument type must be string"
 //@   conforms functionQuery.Func
 //@   captures arg1 != nil && arg2 != nil
+//@   uses one-document
+//@   loop * invariant[cursor@C13] cur(t) == old(cur(t)) && pos(cur(t)) == old(pos(cur(t)))
 
 //@ func endwithFunc
 //@   props C15
@@ -306,13 +334,15 @@ package xpath
 //@   ensures[nonnil@C15] result != nil
 //@   requires[nonnil-args@C15] arg1 != nil && arg2 != nil
 //@ func endwithFunc$1
-//@   props C15 C04 C05
-//@   theory stream for C04 C05 C14
+//@   props C15 C04 C05 C13
+//@   theory stream for C04 C05 C14 C13
 //@   ensures[pure-arg1@C04,C05] stateless(arg1) || k(arg1) == old(k(arg1)) && epoch(arg1) == old(epoch(arg1))
 //@   ensures[pure-arg2@C04,C05] stateless(arg2) || k(arg2) == old(k(arg2)) && epoch(arg2) == old(epoch(arg2))
 //@   panics "ends-with() function argument type must be string"
 //@   conforms functionQuery.Func
 //@   captures arg1 != nil && arg2 != nil
+//@   uses one-document
+//@   loop * invariant[cursor@C13] cur(t) == old(cur(t)) && pos(cur(t)) == old(pos(cur(t)))
 
 //@ func containsFunc
 //@   props C15
@@ -320,13 +350,15 @@ package xpath
 //@   ensures[nonnil@C15] result != nil
 //@   requires[nonnil-args@C15] arg1 != nil && arg2 != nil
 //@ func containsFunc$1
-//@   props C15 C04 C05
-//@   theory stream for C04 C05 C14
+//@   props C15 C04 C05 C13
+//@   theory stream for C04 C05 C14 C13
 //@   ensures[pure-arg1@C04,C05] stateless(arg1) || k(arg1) == old(k(arg1)) && epoch(arg1) == old(epoch(arg1))
 //@   ensures[pure-arg2@C04,C05] stateless(arg2) || k(arg2) == old(k(arg2)) && epoch(arg2) == old(epoch(arg2))
 //@   panics "contains() function argument type must be string"
 //@   conforms functionQuery.Func
 //@   captures arg1 != nil && arg2 != nil
+//@   uses one-document
+//@   loop * invariant[cursor@C13] cur(t) == old(cur(t)) && pos(cur(t)) == old(pos(cur(t)))
 
 //@ func matchesFunc
 //@   props C15
@@ -334,13 +366,15 @@ package xpath
 //@   ensures[nonnil@C15] result != nil
 //@   requires[nonnil-args@C15] arg1 != nil && arg2 != nil
 //@ func matchesFunc$1
-//@   props C15 C04 C05
-//@   theory stream for C04 C05 C14
+//@   props C15 C04 C05 C13
+//@   theory stream for C04 C05 C14 C13
 //@   ensures[pure-arg1@C04,C05] stateless(arg1) || k(arg1) == old(k(arg1)) && epoch(arg1) == old(epoch(arg1))
 //@   ensures[pure-arg2@C04,C05] stateless(arg2) || k(arg2) == old(k(arg2)) && epoch(arg2) == old(epoch(arg2))
 //@   panics "matches() function second argument "
 //@   conforms functionQuery.Func
 //@   captures arg1 != nil && arg2 != nil
+//@   uses one-document
+//@   loop * invariant[cursor@C13] cur(t) == old(cur(t)) && pos(cur(t)) == old(pos(cur(t)))
 
 //@ func normalizespaceFunc
 //@   props C15
@@ -348,12 +382,14 @@ package xpath
 //@   ensures[nonnil@C15] result != nil
 //@   requires[nonnil-args@C15] arg1 != nil
 //@ func normalizespaceFunc$1
-//@   props C15 C04 C05
-//@   theory stream for C04 C05 C14
+//@   props C15 C04 C05 C13
+//@   theory stream for C04 C05 C14 C13
 //@   ensures[pure-arg1@C04,C05] stateless(arg1) || k(arg1) == old(k(arg1)) && epoch(arg1) == old(epoch(arg1))
 //@   conforms functionQuery.Func
 //@   captures arg1 != nil
 //@   loop 0 invariant[pure@C04,C05] (stateless(arg1) || k(arg1) == old(k(arg1)) && epoch(arg1) == old(epoch(arg1)))
+//@   uses one-document
+//@   loop * invariant[cursor@C13] cur(t) == old(cur(t)) && pos(cur(t)) == old(pos(cur(t)))
 
 //@ func substringFunc
 //@   props C15
@@ -361,14 +397,16 @@ package xpath
 //@   ensures[nonnil@C15] result != nil
 //@   requires[nonnil-args@C15] arg1 != nil && arg2 != nil
 //@ func substringFunc$1
-//@   props C15 C04 C05
-//@   theory stream for C04 C05 C14
+//@   props C15 C04 C05 C13
+//@   theory stream for C04 C05 C14 C13
 //@   ensures[pure-arg1@C04,C05] stateless(arg1) || k(arg1) == old(k(arg1)) && epoch(arg1) == old(epoch(arg1))
 //@   ensures[pure-arg2@C04,C05] stateless(arg2) || k(arg2) == old(k(arg2)) && epoch(arg2) == old(epoch(arg2))
 //@   ensures[pure-arg3@C04,C05] arg3 != nil ==> stateless(arg3) || k(arg3) == old(k(arg3)) && epoch(arg3) == old(epoch(arg3))
 //@   panics "substring() function "
 //@   conforms functionQuery.Func
 //@   captures arg1 != nil && arg2 != nil
+//@   uses one-document
+//@   loop * invariant[cursor@C13] cur(t) == old(cur(t)) && pos(cur(t)) == old(pos(cur(t)))
 
 //@ func substringIndFunc
 //@   props C15
@@ -376,12 +414,14 @@ package xpath
 //@   ensures[nonnil@C15] result != nil
 //@   requires[nonnil-args@C15] arg1 != nil && arg2 != nil
 //@ func substringIndFunc$1
-//@   props C15 C04 C05
-//@   theory stream for C04 C05 C14
+//@   props C15 C04 C05 C13
+//@   theory stream for C04 C05 C14 C13
 //@   ensures[pure-arg1@C04,C05] stateless(arg1) || k(arg1) == old(k(arg1)) && epoch(arg1) == old(epoch(arg1))
 //@   ensures[pure-arg2@C04,C05] stateless(arg2) || k(arg2) == old(k(arg2)) && epoch(arg2) == old(epoch(arg2))
 //@   conforms functionQuery.Func
 //@   captures arg1 != nil && arg2 != nil
+//@   uses one-document
+//@   loop * invariant[cursor@C13] cur(t) == old(cur(t)) && pos(cur(t)) == old(pos(cur(t)))
 
 //@ func stringLengthFunc
 //@   props C15
@@ -389,11 +429,13 @@ package xpath
 //@   ensures[nonnil@C15] result != nil
 //@   requires[nonnil-args@C15] arg1 != nil
 //@ func stringLengthFunc$1
-//@   props C15 C04 C05
-//@   theory stream for C04 C05 C14
+//@   props C15 C04 C05 C13
+//@   theory stream for C04 C05 C14 C13
 //@   ensures[pure-arg1@C04,C05] stateless(arg1) || k(arg1) == old(k(arg1)) && epoch(arg1) == old(epoch(arg1))
 //@   conforms functionQuery.Func
 //@   captures arg1 != nil
+//@   uses one-document
+//@   loop * invariant[cursor@C13] cur(t) == old(cur(t)) && pos(cur(t)) == old(pos(cur(t)))
 
 //@ func translateFunc
 //@   props C15
@@ -401,14 +443,16 @@ package xpath
 //@   ensures[nonnil@C15] result != nil
 //@   requires[nonnil-args@C15] arg1 != nil && arg2 != nil && arg3 != nil
 //@ func translateFunc$1
-//@   props C15 C04 C05
-//@   theory stream for C04 C05 C14
+//@   props C15 C04 C05 C13
+//@   theory stream for C04 C05 C14 C13
 //@   ensures[pure-arg1@C04,C05] stateless(arg1) || k(arg1) == old(k(arg1)) && epoch(arg1) == old(epoch(arg1))
 //@   ensures[pure-arg2@C04,C05] stateless(arg2) || k(arg2) == old(k(arg2)) && epoch(arg2) == old(epoch(arg2))
 //@   ensures[pure-arg3@C04,C05] stateless(arg3) || k(arg3) == old(k(arg3)) && epoch(arg3) == old(epoch(arg3))
 //@   conforms functionQuery.Func
 //@   captures arg1 != nil && arg2 != nil && arg3 != nil
 //@   loop 0 invariant[pure@C04,C05] (stateless(arg1) || k(arg1) == old(k(arg1)) && epoch(arg1) == old(epoch(arg1))) && (stateless(arg2) || k(arg2) == old(k(arg2)) && epoch(arg2) == old(epoch(arg2))) && (stateless(arg3) || k(arg3) == old(k(arg3)) && epoch(arg3) == old(epoch(arg3)))
+//@   uses one-document
+//@   loop * invariant[cursor@C13] cur(t) == old(cur(t)) && pos(cur(t)) == old(pos(cur(t)))
 
 //@ func replaceFunc
 //@   props C15
@@ -416,8 +460,8 @@ package xpath
 //@   ensures[nonnil@C15] result != nil
 //@   requires[nonnil-args@C15] arg1 != nil && arg2 != nil && arg3 != nil
 //@ func replaceFunc$1
-//@   props C15 C04 C05
-//@   theory stream for C04 C05 C14
+//@   props C15 C04 C05 C13
+//@   theory stream for C04 C05 C14 C13
 //@   ensures[pure-arg1@C04,C05] stateless(arg1) || k(arg1) == old(k(arg1)) && epoch(arg1) == old(epoch(arg1))
 //@   ensures[pure-arg2@C04,C05] stateless(arg2) || k(arg2) == old(k(arg2)) && epoch(arg2) == old(epoch(arg2))
 //@   ensures[pure-arg3@C04,C05] stateless(arg3) || k(arg3) == old(k(arg3)) && epoch(arg3) == old(epoch(arg3))
@@ -425,6 +469,8 @@ package xpath
 //@   conforms functionQuery.Func
 //@   captures arg1 != nil && arg2 != nil && arg3 != nil
 //@   loop 0 invariant[pure@C04,C05] (stateless(arg1) || k(arg1) == old(k(arg1)) && epoch(arg1) == old(epoch(arg1))) && (stateless(arg2) || k(arg2) == old(k(arg2)) && epoch(arg2) == old(epoch(arg2))) && (stateless(arg3) || k(arg3) == old(k(arg3)) && epoch(arg3) == old(epoch(arg3)))
+//@   uses one-document
+//@   loop * invariant[cursor@C13] cur(t) == old(cur(t)) && pos(cur(t)) == old(pos(cur(t)))
 
 //@ func notFunc
 //@   props C15
@@ -432,11 +478,13 @@ package xpath
 //@   ensures[nonnil@C15] result != nil
 //@   requires[nonnil-args@C15] arg1 != nil
 //@ func notFunc$1
-//@   props C15 C04 C05
-//@   theory stream for C04 C05 C14
+//@   props C15 C04 C05 C13
+//@   theory stream for C04 C05 C14 C13
 //@   ensures[pure-arg1@C04,C05] stateless(arg1) || k(arg1) == old(k(arg1)) && epoch(arg1) == old(epoch(arg1))
 //@   conforms functionQuery.Func
 //@   captures arg1 != nil
+//@   uses one-document
+//@   loop * invariant[cursor@C13] cur(t) == old(cur(t)) && pos(cur(t)) == old(pos(cur(t)))
 
 //@ func stringJoinFunc
 //@   props C15
@@ -444,13 +492,15 @@ package xpath
 //@   ensures[nonnil@C15] result != nil
 //@   requires[nonnil-args@C15] q != nil && arg1 != nil
 //@ func stringJoinFunc$1
-//@   props C15 C04 C05
-//@   theory stream for C04 C05 C14
+//@   props C15 C04 C05 C13
+//@   theory stream for C04 C05 C14 C13
 //@   ensures[pure-q@C04,C05] stateless(q) || k(q) == old(k(q)) && epoch(q) == old(epoch(q))
 //@   ensures[pure-arg1@C04,C05] stateless(arg1) || k(arg1) == old(k(arg1)) && epoch(arg1) == old(epoch(arg1))
 //@   conforms functionQuery.Func
 //@   captures q != nil && arg1 != nil
 //@   loop 0 invariant[pure@C04,C05] (stateless(captured(q)) || k(captured(q)) == old(k(captured(q))) && epoch(captured(q)) == old(epoch(captured(q)))) && (stateless(arg1) || k(arg1) == old(k(arg1)) && epoch(arg1) == old(epoch(arg1)))
+//@   uses one-document
+//@   loop * invariant[cursor@C13] cur(t) == old(cur(t)) && pos(cur(t)) == old(pos(cur(t)))
 
 //@ func lowerCaseFunc
 //@   props C15
@@ -458,33 +508,50 @@ package xpath
 //@   ensures[nonnil@C15] result != nil
 //@   requires[nonnil-args@C15] arg1 != nil
 //@ func lowerCaseFunc$1
-//@   props C15 C04 C05
-//@   theory stream for C04 C05 C14
+//@   props C15 C04 C05 C13
+//@   theory stream for C04 C05 C14 C13
 //@   ensures[pure-arg1@C04,C05] stateless(arg1) || k(arg1) == old(k(arg1)) && epoch(arg1) == old(epoch(arg1))
 //@   conforms functionQuery.Func
 //@   captures arg1 != nil
+//@   uses one-document
+//@   loop * invariant[cursor@C13] cur(t) == old(cur(t)) && pos(cur(t)) == old(pos(cur(t)))
 
 //@ func positionFunc$1
-//@   props C15
+//@   props C15 C13
 //@   conforms functionQuery.Func
+//@   theory stream for C13
+//@   uses one-document
+//@   loop * invariant[cursor@C13] cur(t) == old(cur(t)) && pos(cur(t)) == old(pos(cur(t)))
 //@ func lastFunc$1
-//@   props C15
+//@   props C15 C13
 //@   conforms functionQuery.Func
+//@   theory stream for C13
+//@   uses one-document
+//@   loop * invariant[cursor@C13] cur(t) == old(cur(t)) && pos(cur(t)) == old(pos(cur(t)))
 //@ func concatFunc
 //@   props C15
 //@   modifies nothing
 //@   ensures[nonnil@C15] result != nil
 //@   requires[nonnil-args@C15] elemsNonNil(args)
 //@ func concatFunc$1
-//@   props C15
+//@   props C15 C13
 //@   conforms functionQuery.Func
 //@   captures elemsNonNil(args)
+//@   theory stream for C13
+//@   uses one-document
+//@   loop * invariant[cursor@C13] cur(t) == old(cur(t)) && pos(cur(t)) == old(pos(cur(t)))
 //@ func (*builder).processFunction$1
-//@   props C15
+//@   props C15 C13
 //@   conforms functionQuery.Func
+//@   theory stream for C13
+//@   uses one-document
+//@   loop * invariant[cursor@C13] cur(t) == old(cur(t)) && pos(cur(t)) == old(pos(cur(t)))
 //@ func reverseFunc
-//@   props C15
+//@   props C15 C13
 //@   conforms transformFunctionQuery.Func
+//@   theory stream for C13
+//@   uses one-document
+//@   loop * invariant[cursor@C13] cur(t) == old(cur(t)) && pos(cur(t)) == old(pos(cur(t)))
 //@ func reverseFunc$1
 //@   props C15
 //@   captures 0 <= i && i <= len(list)
@@ -509,9 +576,12 @@ package xpath
 //@   captures root != nil
 
 //@ func (*ancestorQuery).Select
-//@   props C15
+//@   props C15 C13
+//@   theory stream for C13
+//@   uses one-document
 //@   loop 0 invariant a.table != nil
 //@   loop 1 invariant a.table != nil && a.iterator != nil
+//@   loop * invariant[cursor@C13] cur(t) == old(cur(t)) && pos(cur(t)) == old(pos(cur(t)))
 //@ func (*ancestorQuery).Select$1
 //@   props C15
 //@   captures a != nil && node != nil
@@ -557,22 +627,33 @@ package xpath
 //@   props C15
 //@   captures 0 <= i
 //@ func (*filterQuery).Select
-//@   props C15
+//@   props C15 C13
+//@   theory stream for C13
+//@   uses one-document
 //@   loop 0 invariant f.positmap != nil
+//@   loop * invariant[cursor@C13] cur(t) == old(cur(t)) && pos(cur(t)) == old(pos(cur(t)))
+//@   loop * invariant[root@C13] pos(root) == old(pos(cur(t)))
 //@ func (*descendantOverDescendantQuery).moveToFirstChild
-//@   props C15
+//@   props C15 C13
 //@   requires[@C15] d.currentNode != nil
 //@   modifies heap(navpos), d.level
+//@   theory nav for C13
+//@   ensures[moves-own@C13] movesOnly(d.currentNode)
 //@ func (*descendantOverDescendantQuery).moveUpUntilNext
-//@   props C15
+//@   props C15 C13
 //@   requires[@C15] d.currentNode != nil
 //@   modifies heap(navpos), d.level
+//@   theory nav for C13
+//@   ensures[moves-own@C13] movesOnly(d.currentNode)
+//@   loop * invariant[moves-own@C13] movesOnly(d.currentNode)
 
 //@ field *.Predicate(n) result
 //@   requires n != nil
 //@   modifies nothing
+//@   keeps-cursor
 
 //@ field *.iterator() result
+//@   keeps-cursor
 //@   modifies heap(C@*), heap(navpos), heap(F:descendantQuery.level), heap(F:followingQuery.posit), heap(F:precedingQuery.posit), heap(F:descendantQuery.*), heap(F:contextQuery.count), heap(S:*)
 
 //@ func axisPredicate$1
@@ -587,7 +668,7 @@ package xpath
 // Value conversions and comparison cells (func.go, operator.go)
 
 //@ func asBool
-//@   props C15 C07
+//@   props C15 C07 C13
 //@   theory stream
 //@   receiver v
 //@   tree-frame
@@ -603,20 +684,31 @@ package xpath
 //@   ensures[string@C07] is(v, string) ==> result == (as(v, string) != "")
 //@   ensures[node-set@C07] is(v, query) ==> result == (old(k(v)) < slen(ref(v), epoch(v)))
 //@   ensures[nil@C07] v == nil ==> !result
+//@   uses one-document
+//@   ensures[cursor-restored@C13] pos(cur(t)) == old(pos(cur(t)))
+//@   loop * invariant[cursor@C13] cur(t) == old(cur(t)) && pos(cur(t)) == old(pos(cur(t)))
 //@ func asString
-//@   props C15
+//@   props C15 C13
 //@   requires[@C15] t != nil && (v == nil || valtype(v))
 //@   receiver v
 //@   tree-frame
 //@   disjoint-operands
 //@   preserves heap(F:NodeIterator.*)
+//@   theory stream for C13
+//@   uses one-document
+//@   ensures[cursor-restored@C13] pos(cur(t)) == old(pos(cur(t)))
+//@   loop * invariant[cursor@C13] cur(t) == old(cur(t)) && pos(cur(t)) == old(pos(cur(t)))
 //@ func asNumber
-//@   props C15 C08
+//@   props C15 C08 C13
 //@   requires[@C15] t != nil
 //@   receiver o
 //@   tree-frame
 //@   disjoint-operands
 //@   preserves heap(F:NodeIterator.*)
+//@   theory stream for C13
+//@   uses one-document
+//@   ensures[cursor-restored@C13] pos(cur(t)) == old(pos(cur(t)))
+//@   loop * invariant[cursor@C13] cur(t) == old(cur(t)) && pos(cur(t)) == old(pos(cur(t)))
 //@ func predicate
 //@   props C15
 //@   modifies nothing
@@ -629,12 +721,19 @@ package xpath
 //@   ensures[fresh-or-stateless@C04,C05] isFresh(result) || result == q && (is(q, *functionQuery) || is(q, *constantQuery) || is(q, nopQuery))
 //@   ensures[same-kind@C04] sameKind(q, result)
 //@ func numericExpr
-//@   props C15 C08
+//@   props C15 C08 C13
 //@   requires[@C15] t != nil && cb != nil
+//@   theory stream for C13
+//@   uses one-document
+//@   ensures[cursor-restored@C13] pos(cur(t)) == old(pos(cur(t)))
+//@   loop * invariant[cursor@C13] cur(t) == old(cur(t)) && pos(cur(t)) == old(pos(cur(t)))
 //@ func getHashCode
-//@   props C15 C11
+//@   props C15 C11 C13
 //@   requires[@C15] n != nil
 //@   modifies heap(navpos)
+//@   theory nav for C13
+//@   ensures[moves-own@C13] movesOnly(n)
+//@   loop * invariant[moves-own@C13] movesOnly(n)
 //@ func getNodePosition
 //@   props C15 C03
 //@   modifies nothing
@@ -650,6 +749,7 @@ package xpath
 //@ define streamOK(v) = is(v, query) ==> 0 <= k(v) && k(v) <= slen(ref(v), epoch(v))
 //@ field type logical(t, op, m, n) result
 //@   preserves heap(F:NodeIterator.*)
+//@   ensures[cursor-restored@C13] pos(cur(t)) == old(pos(cur(t)))
 //@   requires t != nil && valtype(m) && valtype(n)
 //@   requires[fresh-streams] is(m, query) && is(n, query) ==> k(m) == 0 && k(n) == 0 && ctxp(n) == pos(cur(t))
 //@   requires fn(self) == fnid("cmpBooleanBoolean") ==> is(m, bool) && is(n, bool)
@@ -674,57 +774,83 @@ package xpath
 //@   ensures[regexp-cache] RegexpCache != nil && regexLoader(RegexpCache.load)
 //@   ensures[table-nonnil] forall(i, int, 0 <= i && i < 4 ==> forall(j, int, 0 <= j && j < 4 ==> logicalFuncs[i][j] != nil))
 //@ func cmpBooleanBoolean
-//@   props C15 C07
+//@   props C15 C07 C13
 //@   conforms type logical
+//@   theory stream for C13
+//@   uses one-document
+//@   loop * invariant[cursor@C13] cur(t) == old(cur(t)) && pos(cur(t)) == old(pos(cur(t)))
 //@ func cmpBooleanAny
-//@   props C15 C07
+//@   props C15 C07 C13
 //@   conforms type logical
+//@   theory stream for C13
+//@   uses one-document
+//@   loop * invariant[cursor@C13] cur(t) == old(cur(t)) && pos(cur(t)) == old(pos(cur(t)))
 //@ func cmpNumericNumeric
-//@   props C15 C07
+//@   props C15 C07 C13
 //@   conforms type logical
 //@   ensures[table@C07] result == cmpNum(op, as(m, float64), as(n, float64))
+//@   theory stream for C13
+//@   uses one-document
+//@   loop * invariant[cursor@C13] cur(t) == old(cur(t)) && pos(cur(t)) == old(pos(cur(t)))
 //@ func cmpNumericString
-//@   props C15 C07
+//@   props C15 C07 C13
 //@   conforms type logical
 //@   ensures[nan@C07] result == cmpNum(op, as(m, float64), num(as(n, string)))
+//@   theory stream for C13
+//@   uses one-document
+//@   loop * invariant[cursor@C13] cur(t) == old(cur(t)) && pos(cur(t)) == old(pos(cur(t)))
 //@ func cmpNumericNodeSet
-//@   props C15 C07
+//@   props C15 C07 C13
 //@   conforms type logical
 //@   theory stream
 //@   ensures[exists@C07] result == exists(i, Int, old(k(n)) <= i && i < slen(ref(n), epoch(n)) && cmpNum(op, as(m, float64), num(sval(n, i))))
 //@   loop 0 invariant[@C07] epoch(n) == old(epoch(n)) && old(k(n)) <= k(n)
 //@   loop 0 invariant[@C07] forall(i, Int, old(k(n)) <= i && i < k(n) ==> !cmpNum(op, as(m, float64), num(sval(n, i))))
+//@   uses one-document
+//@   loop * invariant[cursor@C13] cur(t) == old(cur(t)) && pos(cur(t)) == old(pos(cur(t)))
 //@ func cmpStringNumeric
-//@   props C15 C07
+//@   props C15 C07 C13
 //@   conforms type logical
 //@   ensures[nan@C07] result == cmpNum(op, num(as(m, string)), as(n, float64))
+//@   theory stream for C13
+//@   uses one-document
+//@   loop * invariant[cursor@C13] cur(t) == old(cur(t)) && pos(cur(t)) == old(pos(cur(t)))
 //@ func cmpStringString
-//@   props C15 C07
+//@   props C15 C07 C13
 //@   conforms type logical
 //@   ensures[table@C07] result == cmpStr(op, as(m, string), as(n, string))
+//@   theory stream for C13
+//@   uses one-document
+//@   loop * invariant[cursor@C13] cur(t) == old(cur(t)) && pos(cur(t)) == old(pos(cur(t)))
 //@ func cmpStringNodeSet
-//@   props C15 C07
+//@   props C15 C07 C13
 //@   conforms type logical
 //@   theory stream
 //@   ensures[exists@C07] op == "=" || op == "!=" ==> result == exists(i, Int, old(k(n)) <= i && i < slen(ref(n), epoch(n)) && cmpStr(op, as(m, string), sval(n, i)))
 //@   loop 0 invariant[@C07] epoch(n) == old(epoch(n)) && old(k(n)) <= k(n)
 //@   loop 0 invariant[@C07] op == "=" || op == "!=" ==> forall(i, Int, old(k(n)) <= i && i < k(n) ==> !cmpStr(op, as(m, string), sval(n, i)))
+//@   uses one-document
+//@   loop * invariant[cursor@C13] cur(t) == old(cur(t)) && pos(cur(t)) == old(pos(cur(t)))
 //@ func cmpNodeSetNumeric
-//@   props C15 C07
+//@   props C15 C07 C13
 //@   conforms type logical
 //@   theory stream
 //@   ensures[exists@C07] result == exists(i, Int, old(k(m)) <= i && i < slen(ref(m), epoch(m)) && cmpNum(op, num(sval(m, i)), as(n, float64)))
 //@   loop 0 invariant[@C07] epoch(m) == old(epoch(m)) && old(k(m)) <= k(m)
 //@   loop 0 invariant[@C07] forall(i, Int, old(k(m)) <= i && i < k(m) ==> !cmpNum(op, num(sval(m, i)), as(n, float64)))
+//@   uses one-document
+//@   loop * invariant[cursor@C13] cur(t) == old(cur(t)) && pos(cur(t)) == old(pos(cur(t)))
 //@ func cmpNodeSetString
-//@   props C15 C07
+//@   props C15 C07 C13
 //@   conforms type logical
 //@   theory stream
 //@   ensures[exists@C07] op == "=" || op == "!=" ==> result == exists(i, Int, old(k(m)) <= i && i < slen(ref(m), epoch(m)) && cmpStr(op, sval(m, i), as(n, string)))
 //@   loop 0 invariant[@C07] epoch(m) == old(epoch(m)) && old(k(m)) <= k(m)
 //@   loop 0 invariant[@C07] op == "=" || op == "!=" ==> forall(i, Int, old(k(m)) <= i && i < k(m) ==> !cmpStr(op, sval(m, i), as(n, string)))
+//@   uses one-document
+//@   loop * invariant[cursor@C13] cur(t) == old(cur(t)) && pos(cur(t)) == old(pos(cur(t)))
 //@ func cmpNodeSetNodeSet
-//@   props C15 C07
+//@   props C15 C07 C13
 //@   conforms type logical
 //@   theory stream
 //@   requires[fresh-streams@C07] k(m) == 0 && k(n) == 0 && ctxp(n) == pos(cur(t))
@@ -739,26 +865,49 @@ package xpath
 //@   loop 1 invariant[@C07] 1 <= k(n) && k(n) <= slen(ref(n), epoch(n)) && sameS(n, epoch(n), eb) && ctxp(n) == pos(cur(t)) && pos(y) == spos(ref(n), epoch(n), k(n) - 1)
 //@   loop 1 invariant[@C07] op == "=" || op == "!=" ==> forall(i, Int, 0 <= i && i < k(m) - 1 ==> forall(j, Int, 0 <= j && j < slen(ref(n), eb) ==> !cmpStr(op, sval(m, i), nav_value(spos(ref(n), eb, j)))))
 //@   loop 1 invariant[@C07] op == "=" || op == "!=" ==> forall(j, Int, 0 <= j && j < k(n) - 1 ==> !cmpStr(op, sval(m, k(m) - 1), nav_value(spos(ref(n), eb, j))))
+//@   uses one-document
+//@   loop * invariant[cursor@C13] cur(t) == old(cur(t)) && pos(cur(t)) == old(pos(cur(t)))
 //@ func eqFunc
-//@   props C15 C07
+//@   props C15 C07 C13
 //@   conforms logicalQuery.Do
+//@   theory stream for C13
+//@   uses one-document
+//@   loop * invariant[cursor@C13] cur(t) == old(cur(t)) && pos(cur(t)) == old(pos(cur(t)))
 //@ func gtFunc
-//@   props C15 C07
+//@   props C15 C07 C13
 //@   conforms logicalQuery.Do
+//@   theory stream for C13
+//@   uses one-document
+//@   loop * invariant[cursor@C13] cur(t) == old(cur(t)) && pos(cur(t)) == old(pos(cur(t)))
 //@ func geFunc
-//@   props C15 C07
+//@   props C15 C07 C13
 //@   conforms logicalQuery.Do
+//@   theory stream for C13
+//@   uses one-document
+//@   loop * invariant[cursor@C13] cur(t) == old(cur(t)) && pos(cur(t)) == old(pos(cur(t)))
 //@ func ltFunc
-//@   props C15 C07
+//@   props C15 C07 C13
 //@   conforms logicalQuery.Do
+//@   theory stream for C13
+//@   uses one-document
+//@   loop * invariant[cursor@C13] cur(t) == old(cur(t)) && pos(cur(t)) == old(pos(cur(t)))
 //@ func leFunc
-//@   props C15 C07
+//@   props C15 C07 C13
 //@   conforms logicalQuery.Do
+//@   theory stream for C13
+//@   uses one-document
+//@   loop * invariant[cursor@C13] cur(t) == old(cur(t)) && pos(cur(t)) == old(pos(cur(t)))
 //@ func neFunc
-//@   props C15 C07
+//@   props C15 C07 C13
 //@   conforms logicalQuery.Do
+//@   theory stream for C13
+//@   uses one-document
+//@   loop * invariant[cursor@C13] cur(t) == old(cur(t)) && pos(cur(t)) == old(pos(cur(t)))
 //@ func cmpBooleanAny$1
-//@   props C15 C07
+//@   props C15 C07 C13
+//@   theory stream for C13
+//@   uses one-document
+//@   ensures[cursor-restored@C13] pos(cur(t)) == old(pos(cur(t)))
 //@   receiver v
 //@   tree-frame
 //@   disjoint-operands
@@ -770,15 +919,22 @@ package xpath
 //@   inline
 //@   requires[@C15] valtype(i)
 //@ func (*filterQuery).do
-//@   props C15 C02
+//@   props C15 C02 C13
 //@   requires[@C15] t != nil
 //@   tree-frame
 //@   preserves heap(F:NodeIterator.*)
+//@   theory stream for C13
+//@   uses one-document
+//@   ensures[cursor-restored@C13] pos(cur(t)) == old(pos(cur(t)))
+//@   loop * invariant[cursor@C13] cur(t) == old(cur(t)) && pos(cur(t)) == old(pos(cur(t)))
 //@ func (*descendantQuery).Select
-//@   props C15
+//@   props C15 C13
+//@   theory stream for C13
+//@   uses one-document
 //@   requires[@C15] t != nil
 //@   tree-frame
 //@   preserves heap(F:NodeIterator.*)
+//@   loop * invariant[cursor@C13] cur(t) == old(cur(t)) && pos(cur(t)) == old(pos(cur(t)))
 
 //@ field result predicate(n) result
 //@   requires n != nil
@@ -1187,15 +1343,18 @@ package xpath
 //@ func stringToNumber
 //@   inline
 //@ func (*logicalQuery).Evaluate
-//@   props C15 C07 C02
+//@   props C15 C07 C02 C13
+//@   uses one-document
 //@   theory stream
 //@ func (*numericQuery).Evaluate
-//@   props C15 C08 C02
+//@   props C15 C08 C02 C13
+//@   uses one-document
 //@   theory stream
 
 //@ define truthOf(v, e) = ite(is(v, bool), as(v, bool), ite(is(v, float64), as(v, float64) != 0 && !isNaN(as(v, float64)), ite(is(v, string), as(v, string) != "", is(v, query) && 0 < slen(ref(v), e))))
 //@ func (*booleanQuery).Evaluate
-//@   props C15 C07
+//@   props C15 C07 C13
+//@   uses one-document
 //@   theory stream
 //@   requires !is(b.Left, nopQuery) && !is(b.Right, nopQuery)
 //@   assume[ownership] ref(b.Left) != ref(b.Right)
@@ -1204,6 +1363,7 @@ package xpath
 //@   ensures[short-circuit-or@C07] b.IsOr && truthOf(evalv(ref(b.Left), eL), eL) ==> result == box(true) && epoch(b.Right) == old(epoch(b.Right))
 //@   ensures[short-circuit-and@C07] !b.IsOr && !truthOf(evalv(ref(b.Left), eL), eL) ==> result == box(false) && epoch(b.Right) == old(epoch(b.Right))
 //@   ensures[right@C07] (b.IsOr && !truthOf(evalv(ref(b.Left), eL), eL)) || (!b.IsOr && truthOf(evalv(ref(b.Left), eL), eL)) ==> result == box(truthOf(evalv(ref(b.Right), eR), eR))
+//@   loop * invariant[cursor@C13] cur(t) == old(cur(t)) && pos(cur(t)) == old(pos(cur(t)))
 
 // ---------------------------------------------------------------------------
 // Purity of a compiled expression (C04/C05) and the reset protocol (C02).
@@ -1301,65 +1461,86 @@ package xpath
 
 // Evaluate methods: the reset protocol (C02) is stated on the interface contract; they need the stream ghosts.
 //@ func (*contextQuery).Evaluate
-//@   props C15 C02
+//@   props C15 C02 C13
+//@   uses one-document
 //@   theory stream
 //@ func (*absoluteQuery).Evaluate
-//@   props C15 C02
+//@   props C15 C02 C13
+//@   uses one-document
 //@   theory stream
 //@ func (*ancestorQuery).Evaluate
-//@   props C15 C02
+//@   props C15 C02 C13
+//@   uses one-document
 //@   theory stream
 //@ func (*attributeQuery).Evaluate
-//@   props C15 C02
+//@   props C15 C02 C13
+//@   uses one-document
 //@   theory stream
 //@ func (*childQuery).Evaluate
-//@   props C15 C02
+//@   props C15 C02 C13
+//@   uses one-document
 //@   theory stream
 //@ func (*cachedChildQuery).Evaluate
-//@   props C15 C02
+//@   props C15 C02 C13
+//@   uses one-document
 //@   theory stream
 //@ func (*descendantQuery).Evaluate
-//@   props C15 C02
+//@   props C15 C02 C13
+//@   uses one-document
 //@   theory stream
 //@ func (*followingQuery).Evaluate
-//@   props C15 C02
+//@   props C15 C02 C13
+//@   uses one-document
 //@   theory stream
 //@ func (*precedingQuery).Evaluate
-//@   props C15 C02
+//@   props C15 C02 C13
+//@   uses one-document
 //@   theory stream
 //@ func (*parentQuery).Evaluate
-//@   props C15 C02
+//@   props C15 C02 C13
+//@   uses one-document
 //@   theory stream
 //@ func (*selfQuery).Evaluate
-//@   props C15 C02
+//@   props C15 C02 C13
+//@   uses one-document
 //@   theory stream
 //@ func (*filterQuery).Evaluate
-//@   props C15 C02
+//@   props C15 C02 C13
+//@   uses one-document
 //@   theory stream
 //@ func (*functionQuery).Evaluate
-//@   props C15 C02
+//@   props C15 C02 C13
+//@   uses one-document
 //@   theory stream
 //@ func (*transformFunctionQuery).Evaluate
-//@   props C15 C02
+//@   props C15 C02 C13
+//@   uses one-document
 //@   theory stream
 //@ func (*constantQuery).Evaluate
-//@   props C15 C02
+//@   props C15 C02 C13
+//@   uses one-document
 //@   theory stream
 //@ func (*groupQuery).Evaluate
-//@   props C15 C02
+//@   props C15 C02 C13
+//@   uses one-document
 //@   theory stream
 //@ func (*unionQuery).Evaluate
-//@   props C15 C02
+//@   props C15 C02 C13
+//@   uses one-document
 //@   theory stream
 //@   assume[ownership] ref(u.Left) != ref(u.Right)
 //@ func (*lastFuncQuery).Evaluate
-//@   props C15 C02
+//@   loop * invariant[cursor@C13] cur(t) == old(cur(t)) && pos(cur(t)) == old(pos(cur(t)))
+//@   props C15 C02 C13
+//@   uses one-document
 //@   theory stream
 //@ func (*descendantOverDescendantQuery).Evaluate
-//@   props C15 C02
+//@   props C15 C02 C13
+//@   uses one-document
 //@   theory stream
 //@ func (*mergeQuery).Evaluate
-//@   props C15 C02
+//@   props C15 C02 C13
+//@   uses one-document
 //@   theory stream
 
 //@ func (*Expr).Select
@@ -1652,3 +1833,187 @@ package xpath
 //@   panics "prefix "
 //@   ensures[bound-prefix@C14] prefix != "" && p.namespaces != nil ==> a.hasNamespaceURI && has(p.namespaces, prefix) && a.namespaceURI == p.namespaces[prefix]
 //@   ensures[no-map@C14] prefix == "" || p.namespaces == nil ==> a.hasNamespaceURI == old(a.hasNamespaceURI)
+
+// ---------------------------------------------------------------------------
+// C13: the shared context cursor. Every Select/Evaluate leaves pos(t.Current()) where it
+// found it (proved for each implementation: interface clause cursor-restored), so a relative
+// operand is always resolved against the caller's context node.
+//@ axiom[one-document] forall(p, Pos, forall(q, Pos, rootof(p) == rootof(q)))
+//@ func (*contextQuery).Select
+//@   props C15 C13
+//@   theory stream for C13
+//@   uses one-document
+//@ func (*absoluteQuery).Select
+//@   props C15 C13
+//@   theory stream for C13
+//@   uses one-document
+//@ func (*attributeQuery).Select
+//@   props C15 C13
+//@   theory stream for C13
+//@   uses one-document
+//@   loop * invariant[cursor@C13] cur(t) == old(cur(t)) && pos(cur(t)) == old(pos(cur(t)))
+//@ func (*childQuery).Select
+//@   props C15 C13
+//@   theory stream for C13
+//@   uses one-document
+//@   loop * invariant[cursor@C13] cur(t) == old(cur(t)) && pos(cur(t)) == old(pos(cur(t)))
+//@ func (*cachedChildQuery).Select
+//@   props C15 C13
+//@   theory stream for C13
+//@   uses one-document
+//@   loop * invariant[cursor@C13] cur(t) == old(cur(t)) && pos(cur(t)) == old(pos(cur(t)))
+//@ func (*followingQuery).Select
+//@   props C15 C13
+//@   theory stream for C13
+//@   uses one-document
+//@   loop * invariant[cursor@C13] cur(t) == old(cur(t)) && pos(cur(t)) == old(pos(cur(t)))
+//@ func (*precedingQuery).Select
+//@   props C15 C13
+//@   theory stream for C13
+//@   uses one-document
+//@   loop * invariant[cursor@C13] cur(t) == old(cur(t)) && pos(cur(t)) == old(pos(cur(t)))
+//@ func (*parentQuery).Select
+//@   props C15 C13
+//@   theory stream for C13
+//@   uses one-document
+//@   loop * invariant[cursor@C13] cur(t) == old(cur(t)) && pos(cur(t)) == old(pos(cur(t)))
+//@ func (*selfQuery).Select
+//@   props C15 C13
+//@   theory stream for C13
+//@   uses one-document
+//@   loop * invariant[cursor@C13] cur(t) == old(cur(t)) && pos(cur(t)) == old(pos(cur(t)))
+//@ func (*functionQuery).Select
+//@   props C15 C13
+//@   theory stream for C13
+//@   uses one-document
+//@ func (*transformFunctionQuery).Select
+//@   props C15 C13
+//@   theory stream for C13
+//@   uses one-document
+//@   loop * invariant[cursor@C13] cur(t) == old(cur(t)) && pos(cur(t)) == old(pos(cur(t)))
+//@ func (*constantQuery).Select
+//@   props C15 C13
+//@   theory stream for C13
+//@   uses one-document
+//@ func (*groupQuery).Select
+//@   props C15 C13
+//@   theory stream for C13
+//@   uses one-document
+//@   loop * invariant[cursor@C13] cur(t) == old(cur(t)) && pos(cur(t)) == old(pos(cur(t)))
+//@ func (*logicalQuery).Select
+//@   props C15 C13
+//@   theory stream for C13
+//@   uses one-document
+//@   loop * invariant[cursor@C13] cur(t) == old(cur(t)) && pos(cur(t)) == old(pos(cur(t)))
+//@ func (*numericQuery).Select
+//@   props C15 C13
+//@   theory stream for C13
+//@   uses one-document
+//@ func (*booleanQuery).Select
+//@   props C15 C13
+//@   assume[ownership] ref(b.Left) != ref(b.Right)
+//@   ensures[materialised@C13] old(b.iterator) == nil ==> k(b.Left) == slen(ref(b.Left), epoch(b.Left)) && k(b.Right) == slen(ref(b.Right), epoch(b.Right))
+//@   loop 1 invariant[left-drained@C13] k(b.Left) == slen(ref(b.Left), epoch(b.Left))
+//@   loop 3 invariant[left-drained@C13] k(b.Left) == slen(ref(b.Left), epoch(b.Left))
+//@   loop 4 invariant[drainedL@C13] k(b.Left) == slen(ref(b.Left), epoch(b.Left))
+//@   loop 4 invariant[drainedR@C13] k(b.Right) == slen(ref(b.Right), epoch(b.Right))
+//@   loop 5 invariant[drainedL@C13] k(b.Left) == slen(ref(b.Left), epoch(b.Left))
+//@   loop 5 invariant[drainedR@C13] k(b.Right) == slen(ref(b.Right), epoch(b.Right))
+//@   theory stream for C13
+//@   uses one-document
+//@   loop * invariant[cursor@C13] cur(t) == old(cur(t))
+//@   loop 0 invariant[cursor0@C13] pos(cur(t)) == old(pos(cur(t)))
+//@   loop 1 invariant[cursor1@C13] pos(cur(t)) == old(pos(cur(t)))
+//@   loop 2 invariant[cursor2@C13] pos(cur(t)) == old(pos(cur(t)))
+//@   loop 3 invariant[cursor3@C13] pos(cur(t)) == old(pos(cur(t)))
+//@   loop 4 invariant[cursor4@C13] pos(cur(t)) == old(pos(cur(t)))
+//@   loop 5 invariant[cursor5@C13] pos(cur(t)) == old(pos(cur(t)))
+//@   loop * invariant[root@C13] pos(root) == old(pos(cur(t)))
+//@ func (*unionQuery).Select
+//@   props C15 C13 C11
+//@   assume[ownership] ref(u.Left) != ref(u.Right)
+//@   ensures[materialised@C13,C11] old(u.iterator) == nil ==> k(u.Left) == slen(ref(u.Left), epoch(u.Left)) && k(u.Right) == slen(ref(u.Right), epoch(u.Right))
+//@   loop 1 invariant[left-drained@C13,C11] k(u.Left) == slen(ref(u.Left), epoch(u.Left))
+//@   theory stream for C13
+//@   uses one-document
+//@   loop * invariant[cursor@C13] cur(t) == old(cur(t))
+//@   loop 0 invariant[cursor-left@C13] pos(cur(t)) == old(pos(cur(t)))
+//@   loop 1 invariant[cursor-right@C13] pos(cur(t)) == old(pos(cur(t)))
+//@   loop * invariant[root@C13] pos(root) == old(pos(cur(t)))
+//@ func (*lastFuncQuery).Select
+//@   props C15 C13
+//@   theory stream for C13
+//@   uses one-document
+//@ func (*descendantOverDescendantQuery).Select
+//@   props C15 C13
+//@   theory stream for C13
+//@   uses one-document
+//@   loop * invariant[cursor@C13] cur(t) == old(cur(t)) && pos(cur(t)) == old(pos(cur(t)))
+//@   assume[own-navigators] d.currentNode == nil || ref(d.currentNode) != ref(cur(t))   // navigators kept in query fields are copies the query made, never the caller's cursor
+//@   loop * invariant[own@C13] d.currentNode == nil || ref(d.currentNode) != ref(cur(t))
+//@ func (*mergeQuery).Select
+//@   props C15 C13
+//@   theory stream for C13
+//@   uses one-document
+//@   loop * invariant[cursor@C13] cur(t) == old(cur(t))
+//@   loop 0 invariant[cursor-outer@C13] pos(cur(t)) == old(pos(cur(t)))
+//@   loop 1 invariant[saved@C13] pos(saved) == old(pos(cur(t)))
+
+// ---------------------------------------------------------------------------
+// Arithmetic operators (operator.go): package-level function literals, named after the
+// variable they initialise.
+//@ field numericExpr.cb(a, b) result
+//@   modifies nothing
+//@ func plusFunc
+//@   props C15 C08 C13
+//@   conforms numericQuery.Do
+//@   theory stream for C13
+//@   uses one-document
+//@ func plusFunc$1
+//@   props C15 C08
+//@   conforms numericExpr.cb
+//@   modifies nothing
+//@ func minusFunc
+//@   props C15 C08 C13
+//@   conforms numericQuery.Do
+//@   theory stream for C13
+//@   uses one-document
+//@ func minusFunc$1
+//@   props C15 C08
+//@   conforms numericExpr.cb
+//@   modifies nothing
+//@ func mulFunc
+//@   props C15 C08 C13
+//@   conforms numericQuery.Do
+//@   theory stream for C13
+//@   uses one-document
+//@ func mulFunc$1
+//@   props C15 C08
+//@   conforms numericExpr.cb
+//@   modifies nothing
+//@ func divFunc
+//@   props C15 C08 C13
+//@   conforms numericQuery.Do
+//@   theory stream for C13
+//@   uses one-document
+//@ func divFunc$1
+//@   props C15 C08
+//@   conforms numericExpr.cb
+//@   modifies nothing
+//@ func modFunc
+//@   props C15 C08 C13
+//@   conforms numericQuery.Do
+//@   theory stream for C13
+//@   uses one-document
+//@ func modFunc$1
+//@   props C15 C08
+//@   conforms numericExpr.cb
+//@   modifies nothing
+//@ func orFunc
+//@   props C15 C13
+//@   conforms logicalQuery.Do
+//@   theory stream for C13
+//@   uses one-document
+//@ func builderPool.New
+//@   props C15
+//@   modifies nothing
